@@ -6,6 +6,7 @@ LEVEL = 'proof'
 
 
 def run(rep):
+    enginep.unify_deductive(rep)      # facts are matched by unification: the unify family against su (C02's contracts)
     enginep.engine_deductive(rep, enginep.DB_FUNS + enginep.COPY_FUNS + enginep.BUILTIN_REG + ['engine.YP.query'])
     q = rep.tier == 'quick'
     fw.standin(rep, 'difftest.py', ['run', 'F4', rep.seed, 6000 if q else 40000],
